@@ -81,6 +81,17 @@ pub fn check(s: &Scenario) -> CheckResult {
             let again = (sut.get)();
             ensure!(again.same(&first), format!("C05/{}/get-not-pure", kname), "event {}: get() #{} returned {:?} after get() returned {:?} with no update in between", i, g + 2, again, first);
         }
+        // the input changes, but the stream is not updated: get() still reports what it saw at its most recent update
+        // (no error the input did not return *at that update*, same value as every other get() since)
+        let other = match ev {
+            Ev::P(..) => Ev::E(if i % 2 == 0 { 1 } else { 2 }),
+            Ev::A => Ev::E(2),
+            Ev::E(_) => Ev::P(12.5, 0),
+        };
+        (sut.feed)(&other, times[i]);
+        let unmoved = (sut.get)();
+        ensure!(unmoved.same(&first), format!("C05/{}/get-follows-input", kname), "event {} ({:?}): after the input changed to {:?} WITHOUT an update, get() returns {:?}; at the most recent update it returned {:?}", i, ev, other, unmoved, first);
+        (sut.feed)(ev, times[i]);
         let input_now = match ev {
             Ev::P(v, _) => Obs::Some(times[i], vec![*v]),
             Ev::A => Obs::None,
@@ -190,7 +201,7 @@ fn scenario_for(kind: Kind) -> BoxedStrategy<Scenario> {
 pub struct C05;
 impl Property for C05 {
     const ID: &'static str = "C05";
-    const RULE: &'static str = "random histories (0..48 events: present sample with strictly increasing time / absent / Err(1) / Err(2), weights 6:2:1:1, plus 0..3 extra get() calls per step; freeze additionally an independent condition history over {true,false,absent,Err}) for each of the 14 stateful stream instantiations (the 12 types; EWMA and moving average in both their f32 and Quantity variants). Oracles on the real stream: get() is Err(e) only if the input returned Err(e) at the latest update; all get()s between updates agree and a twin with a different get() count stays identical; for every documented reset event k a fresh stream fed events k.. agrees from then on; deleting absent events changes nothing for absent-ignoring streams; freeze per its statement. Non-trivial = history has a reset event followed by >= 2 present samples (freeze: >= 3 events with both true and false conditions); distinct = (stream, sequence of event kinds).";
+    const RULE: &'static str = "random histories (0..48 events: present sample with strictly increasing time / absent / Err(1) / Err(2), weights 6:2:1:1, plus 0..3 extra get() calls per step; freeze additionally an independent condition history over {true,false,absent,Err}) for each of the 14 stateful stream instantiations (the 12 types; EWMA and moving average in both their f32 and Quantity variants). Oracles on the real stream: get() is Err(e) only if the input returned Err(e) at the latest update; all get()s between updates agree - also after the input has changed without an update - and a twin with a different get() count stays identical; for every documented reset event k a fresh stream fed events k.. agrees from then on; deleting absent events changes nothing for absent-ignoring streams; freeze per its statement. Non-trivial = history has a reset event followed by >= 2 present samples (freeze: >= 3 events with both true and false conditions); distinct = (stream, sequence of event kinds).";
     type Scenario = Scenario;
     fn strategy(_tier: Tier) -> BoxedStrategy<Scenario> {
         proptest::sample::select(ALL_KINDS.to_vec()).prop_flat_map(scenario_for).boxed()
